@@ -560,8 +560,9 @@ func replayRego(dir string) int {
 		Program  string   `json:"program"`
 		Detail   string   `json:"detail"`
 		Replay   struct {
-			ExpectedLocations map[string]any `json:"expected_locations"`
-			ProfileName       string         `json:"profile_name"`
+			ExpectedLocations map[string]any    `json:"expected_locations"`
+			TracePaths        map[string]string `json:"trace_paths"`
+			ProfileName       string            `json:"profile_name"`
 		} `json:"replay_data"`
 	}
 	b, _ := os.ReadFile(filepath.Join(dir, "inputs.json"))
@@ -608,7 +609,7 @@ func replayRego(dir string) int {
 				names = append(names, part[:i])
 			}
 		}
-		problems := regosym.ReplayShapeProblems(outs[0].Report, names, in.Replay.ExpectedLocations, strings.HasPrefix(in.Label, "C12."))
+		problems := regosym.ReplayShapeProblems(outs[0].Report, names, in.Replay.ExpectedLocations, strings.HasPrefix(in.Label, "C12."), in.Replay.TracePaths)
 		if in.Replay.ProfileName != "" && !strings.Contains(outs[0].Report, "\"profileName\": "+strconv.Quote(in.Replay.ProfileName)) && strings.HasPrefix(in.Label, "C03.") {
 			problems = append(problems, "C03.profile-name")
 		}
